@@ -18,7 +18,7 @@ from mc.explorer import System, Violation
 from mc.numeric import close, lockstep
 from mc.observe import stream_obs
 from mc.rng import seed_step
-from models.pcacd import PCACDModel, Undefined, score_close
+from models.pcacd import PCACDModel, Undefined
 
 PROPERTY = "C11"
 
@@ -484,10 +484,6 @@ def _sym_tasks(tier):
                     t["label"] = t["label"].replace("|2D", "|2Dsym")
                     out.append(t)
     return out
-
-
-def _pick(cfgs, **bits):
-    return [c for c in cfgs if all(c["bits"][k] == v for k, v in bits.items())]
 
 
 def tasks(tier, seed):
